@@ -40,9 +40,9 @@ Definition project_dt_attrs (ty : type_path) (d : dt_attrs) : dt_attrs :=
 Definition project (ty : type_path) (d : data_type) : data_type :=
   match d with
   | DStruct s => DStruct {| s_attrs := project_dt_attrs ty (s_attrs s); s_ident := s_ident s; s_generics := s_generics s;
-                            s_fields := map (project_field ty) (s_fields s); s_named := s_named s; s_unit := s_unit s |}
+                            s_fields := map (project_field ty) (s_fields s); s_named := s_named s; s_unit := s_unit s; s_where := s_where s |}
   | DEnum e => DEnum {| e_attrs := project_dt_attrs ty (e_attrs e); e_ident := e_ident e; e_generics := e_generics e;
-                        e_variants := map (project_variant ty) (e_variants e) |}
+                        e_variants := map (project_variant ty) (e_variants e); e_where := e_where e |}
   end.
 
 (* ---- list lemmas ---- *)
